@@ -38,6 +38,9 @@ func verifK_Sender() {
 		return nil
 	})
 	ds := snd.(*defaultSender)
+	if verifBool("staleToken") {
+		ds.windowUpdates <- struct{}{} // left behind by an earlier message
+	}
 	var err error
 	done := false
 	cancelled := false
